@@ -33,9 +33,6 @@ type vectorOperator struct {
 
 	// series contains the output series of the operator
 	series []labels.Labels
-	// The outputCache is an internal cache used to calculate
-	// the binary operation of the lhs and rhs operator.
-	outputCache []outputSample
 	// table is used to calculate the binary operation of two step vectors between
 	// the lhs and rhs operator.
 	table *table
@@ -140,40 +137,73 @@ func (o *vectorOperator) initOutputs(ctx context.Context) error {
 	o.lhSampleIDs = highCardSide
 	o.rhSampleIDs = lowCardSide
 
+	// The "many" side is the left hand side, except for group_right.
+	manySide, oneSide := highCardSide, lowCardSide
 	if o.matching.Card == parser.CardOneToMany {
-		highCardSide, lowCardSide = lowCardSide, highCardSide
+		manySide, oneSide = lowCardSide, highCardSide
 	}
 
 	buf := make([]byte, 1024)
-	var includeLabels []string
-	if len(o.matching.Include) > 0 {
-		includeLabels = o.matching.Include
-	}
 	keepLabels := o.matching.Card != parser.CardOneToOne
 	keepName := !shouldDropMetricName(o.opType, o.returnBool)
-	highCardHashes, highCardInputMap := o.hashSeries(highCardSide, keepLabels, keepName, buf)
-	lowCardHashes, lowCardInputMap := o.hashSeries(lowCardSide, keepLabels, keepName, buf)
-	output, highCardOutputIndex, lowCardOutputIndex := o.join(highCardHashes, highCardInputMap, lowCardHashes, lowCardInputMap, includeLabels)
 
-	series := make([]labels.Labels, len(output))
-	for _, s := range output {
-		series[s.ID] = s.Metric
+	// Assign every series of both sides to its match group.
+	groupIDs := make(map[uint64]int)
+	groupOf := func(sig uint64) int {
+		id, ok := groupIDs[sig]
+		if !ok {
+			id = len(groupIDs)
+			groupIDs[sig] = id
+		}
+		return id
 	}
-	o.series = series
+	manyGroups := make([]int, len(manySide))
+	manyMetrics := make([]labels.Labels, len(manySide))
+	for i, s := range manySide {
+		sig, lbls := signature(s, !o.matching.On, o.groupingLabels, keepLabels, keepName, buf)
+		manyGroups[i] = groupOf(sig)
+		manyMetrics[i] = lbls
+	}
+	oneGroups := make([]int, len(oneSide))
+	for i, s := range oneSide {
+		sig, _ := signature(s, !o.matching.On, o.groupingLabels, keepLabels, keepName, buf)
+		oneGroups[i] = groupOf(sig)
+	}
+	oneSeriesByGroup := make([][]uint64, len(groupIDs))
+	for i, group := range oneGroups {
+		oneSeriesByGroup[group] = append(oneSeriesByGroup[group], uint64(i))
+	}
 
-	o.outputCache = make([]outputSample, len(series))
-	for i := range o.outputCache {
-		o.outputCache[i].lhT = -1
+	// Every pair of series that can meet in a match group produces an output
+	// series. Pairs that produce the same labels share it: which of them does
+	// produce a sample, and whether two of them collide, is decided per step.
+	o.series = make([]labels.Labels, 0, len(manySide))
+	outputIDs := make(map[string]uint64)
+	pairOutputs := make(map[seriesPair]uint64)
+	for i := range manySide {
+		for _, j := range oneSeriesByGroup[manyGroups[i]] {
+			metric := buildOutputMetric(manyMetrics[i], oneSide[j], o.matching.Include)
+			key := string(metric.Bytes(buf))
+			id, ok := outputIDs[key]
+			if !ok {
+				id = uint64(len(o.series))
+				outputIDs[key] = id
+				o.series = append(o.series, metric)
+			}
+			pairOutputs[seriesPair{manyID: uint64(i), oneID: j}] = id
+		}
 	}
-	o.pool.SetStepSize(len(highCardSide))
+	o.pool.SetStepSize(len(manySide))
 
 	o.table = newTable(
 		o.pool,
 		o.matching.Card,
 		o.operation,
-		o.outputCache,
-		newHighCardIndex(highCardOutputIndex),
-		lowCardinalityIndex(lowCardOutputIndex),
+		manyGroups,
+		oneGroups,
+		len(groupIDs),
+		len(o.series),
+		pairOutputs,
 	)
 
 	return nil
@@ -195,10 +225,16 @@ func (o *vectorOperator) Next(ctx context.Context) ([]model.StepVector, error) {
 		return nil, err
 	}
 
-	// TODO(fpetkovski): When one operator becomes empty,
-	// we might want to drain or close the other one.
-	// We don't have a concept of closing an operator yet.
+	// When the stream of one side has ended there is nothing left to match.
+	// The other side is still evaluated to its end, like the Prometheus engine
+	// evaluates both operands completely: an error in it fails the query.
 	if len(lhs) == 0 || len(rhs) == 0 {
+		if err := drain(ctx, o.lhs, lhs); err != nil {
+			return nil, err
+		}
+		if err := drain(ctx, o.rhs, rhs); err != nil {
+			return nil, err
+		}
 		return nil, nil
 	}
 
@@ -217,19 +253,23 @@ func (o *vectorOperator) Next(ctx context.Context) ([]model.StepVector, error) {
 				continue
 			}
 
+			var dupErr *errManyToManyMatch
+			if !errors.As(err, &dupErr) {
+				return nil, err
+			}
 			var sampleID, duplicateSampleID labels.Labels
-			switch err.side {
+			switch dupErr.side {
 			case lhBinOpSide:
-				sampleID = o.lhSampleIDs[err.sampleID]
-				duplicateSampleID = o.lhSampleIDs[err.duplicateSampleID]
+				sampleID = o.lhSampleIDs[dupErr.sampleID]
+				duplicateSampleID = o.lhSampleIDs[dupErr.duplicateSampleID]
 			case rhBinOpSide:
-				sampleID = o.rhSampleIDs[err.sampleID]
-				duplicateSampleID = o.rhSampleIDs[err.duplicateSampleID]
+				sampleID = o.rhSampleIDs[dupErr.sampleID]
+				duplicateSampleID = o.rhSampleIDs[dupErr.duplicateSampleID]
 			}
 			group := sampleID.MatchLabels(o.matching.On, o.matching.MatchingLabels...)
 			msg := "found duplicate series for the match group %s on the %s hand-side of the operation: [%s, %s]" +
 				";many-to-many matching not allowed: matching labels must be unique on one side"
-			return nil, errors.Newf(msg, group, err.side, sampleID.String(), duplicateSampleID.String())
+			return nil, errors.Newf(msg, group, dupErr.side, sampleID.String(), duplicateSampleID.String())
 		}
 		o.lhs.GetPool().PutStepVector(vector)
 	}
@@ -239,91 +279,25 @@ func (o *vectorOperator) Next(ctx context.Context) ([]model.StepVector, error) {
 	return batch, nil
 }
 
+// drain returns batch, the last batch read from op, to op's pool and reads op
+// to the end of its stream.
+func drain(ctx context.Context, op model.VectorOperator, batch []model.StepVector) error {
+	for batch != nil {
+		for _, vector := range batch {
+			op.GetPool().PutStepVector(vector)
+		}
+		op.GetPool().PutVectors(batch)
+
+		var err error
+		if batch, err = op.Next(ctx); err != nil {
+			return err
+		}
+	}
+	return nil
+}
+
 func (o *vectorOperator) GetPool() *model.VectorPool {
 	return o.pool
-}
-
-// hashSeries calculates the hash of each series from an input operator.
-// Since series from the high cardinality operator can map to multiple output series,
-// hashSeries returns an index from hash to a slice of resulting series, and
-// a map from input series ID to output series ID.
-// The latter can be used to build an array backed index from input model.Series to output model.Series,
-// avoiding expensive hashmap lookups.
-func (o *vectorOperator) hashSeries(series []labels.Labels, keepLabels, keepName bool, buf []byte) (map[uint64][]model.Series, map[uint64][]uint64) {
-	hashes := make(map[uint64][]model.Series)
-	inputIndex := make(map[uint64][]uint64)
-	for i, s := range series {
-		sig, lbls := signature(s, !o.matching.On, o.groupingLabels, keepLabels, keepName, buf)
-		if _, ok := hashes[sig]; !ok {
-			hashes[sig] = make([]model.Series, 0, 1)
-			inputIndex[sig] = make([]uint64, 0, 1)
-		}
-		hashes[sig] = append(hashes[sig], model.Series{
-			ID:     uint64(i),
-			Metric: lbls,
-		})
-		inputIndex[sig] = append(inputIndex[sig], uint64(i))
-	}
-
-	return hashes, inputIndex
-}
-
-// join performs a join between series from the high cardinality and low cardinality operators.
-// It does that by using hash maps which point from series hash to the output series.
-// It also returns array backed indices for the high cardinality and low cardinality operators,
-// pointing from input model.Series ID to output model.Series ID.
-// The high cardinality operator can fail to join, which is why its index contains nullable values.
-// The low cardinality operator can join to multiple high cardinality series, which is why its index
-// points to an array of output series.
-func (o *vectorOperator) join(
-	highCardHashes map[uint64][]model.Series,
-	highCardInputIndex map[uint64][]uint64,
-	lowCardHashes map[uint64][]model.Series,
-	lowCardInputIndex map[uint64][]uint64,
-	includeLabels []string,
-) ([]model.Series, []*uint64, [][]uint64) {
-	// Output index points from output series ID
-	// to the actual series.
-	outputIndex := make([]model.Series, 0)
-
-	// Prune high cardinality series which do not have a
-	// matching low cardinality series.
-	outputSize := 0
-	for hash, series := range highCardHashes {
-		outputSize += len(series)
-		if _, ok := lowCardHashes[hash]; !ok {
-			delete(highCardHashes, hash)
-			continue
-		}
-	}
-	lowCardOutputSize := 0
-	for _, lowCardOutputs := range lowCardInputIndex {
-		lowCardOutputSize += len(lowCardOutputs)
-	}
-
-	highCardOutputIndex := make([]*uint64, outputSize)
-	lowCardOutputIndex := make([][]uint64, lowCardOutputSize)
-	for hash, highCardSeries := range highCardHashes {
-		for _, lowCardSeriesID := range lowCardInputIndex[hash] {
-			// Each low cardinality series can map to multiple output series.
-			lowCardOutputIndex[lowCardSeriesID] = make([]uint64, 0, len(highCardSeries))
-		}
-
-		lowCardSeries := lowCardHashes[hash][0]
-		for i, output := range highCardSeries {
-			outputSeries := buildOutputSeries(uint64(len(outputIndex)), output, lowCardSeries, includeLabels)
-			outputIndex = append(outputIndex, outputSeries)
-
-			highCardSeriesID := highCardInputIndex[hash][i]
-			highCardOutputIndex[highCardSeriesID] = &outputSeries.ID
-
-			for _, lowCardSeriesID := range lowCardInputIndex[hash] {
-				lowCardOutputIndex[lowCardSeriesID] = append(lowCardOutputIndex[lowCardSeriesID], outputSeries.ID)
-			}
-		}
-	}
-
-	return outputIndex, highCardOutputIndex, lowCardOutputIndex
 }
 
 func signature(metric labels.Labels, without bool, grouping []string, keepOriginalLabels, keepName bool, buf []byte) (uint64, labels.Labels) {
@@ -355,20 +329,22 @@ func signature(metric labels.Labels, without bool, grouping []string, keepOrigin
 	return key, lb.Labels(nil)
 }
 
-func buildOutputSeries(seriesID uint64, highCardSeries, lowCardSeries model.Series, includeLabels []string) model.Series {
-	metric := highCardSeries.Metric
-	if len(includeLabels) > 0 {
-		// Included labels are taken from the "one" side: they replace a label of
-		// the same name on the "many" side and remove it when the "one" side lacks it.
-		lb := labels.NewBuilder(metric)
-		for _, ln := range includeLabels {
-			if v := lowCardSeries.Metric.Get(ln); v != "" {
-				lb.Set(ln, v)
-			} else {
-				lb.Del(ln)
-			}
-		}
-		metric = lb.Labels(nil)
+// buildOutputMetric returns the labels of the output series of a pair of
+// matching series. manyMetric is the output of signature for the series of the
+// "many" side; included labels are taken from the series of the "one" side:
+// they replace a label of the same name and remove it when the "one" side
+// lacks it.
+func buildOutputMetric(manyMetric, oneMetric labels.Labels, includeLabels []string) labels.Labels {
+	if len(includeLabels) == 0 {
+		return manyMetric
 	}
-	return model.Series{ID: seriesID, Metric: metric}
+	lb := labels.NewBuilder(manyMetric)
+	for _, ln := range includeLabels {
+		if v := oneMetric.Get(ln); v != "" {
+			lb.Set(ln, v)
+		} else {
+			lb.Del(ln)
+		}
+	}
+	return lb.Labels(nil)
 }
